@@ -11,6 +11,14 @@ import ModVerif.Proofs.GoRtLemmasInt
 namespace ModVerif.GoRtTile
 open ModVerif ModVerif.GoRt
 
+/-! ### the Except monad at any error type, as NON-definitional rewrite rules (see `GoRtLemmasInt.mbind_ok`) -/
+
+theorem ebind_ok {ε α β : Type} (a : α) (f : α → Except ε β) : ((Except.ok a : Except ε α) >>= f) = f a := id rfl
+
+theorem ebind_error {ε α β : Type} (e : ε) (f : α → Except ε β) : ((Except.error e : Except ε α) >>= f) = .error e := id rfl
+
+theorem epure {ε α : Type} (a : α) : (pure a : Except ε α) = .ok a := id rfl
+
 /-! ### shifts -/
 
 /-- `a << k` on natural numbers -/
